@@ -123,6 +123,7 @@ func Normalise(pk *packages.Package) {
 	if info == nil {
 		return
 	}
+	defer normaliseStmts(pk)
 	flip := map[token.Token]token.Token{token.LSS: token.GTR, token.GTR: token.LSS, token.LEQ: token.GEQ, token.GEQ: token.LEQ, token.EQL: token.EQL, token.NEQ: token.NEQ}
 	isConstOrNil := func(e ast.Expr) bool {
 		if tv, ok := info.Types[e]; ok && (tv.Value != nil || tv.IsNil()) {
@@ -202,7 +203,22 @@ func Normalise(pk *packages.Package) {
 					if op, ok := flip[x.Op]; ok && isConstOrNil(x.X) && !isConstOrNil(x.Y) {
 						x.X, x.Y, x.Op = x.Y, x.X, op
 					}
-					// b == false → !b, b == true → b, b != false → b, b != true → !b
+					// len(e) < 1, len(e) <= 0 → len(e) == 0;  len(e) >= 1, len(e) != 0 → len(e) > 0
+				if call, ok := unparen(x.X).(*ast.CallExpr); ok && len(call.Args) == 1 {
+					if id, ok := call.Fun.(*ast.Ident); ok && id.Name == "len" {
+						if tv, ok := info.Types[x.Y]; ok && tv.Value != nil {
+							switch c := tv.Value.ExactString(); {
+							case c == "1" && x.Op == token.LSS, c == "0" && x.Op == token.LEQ:
+								x.Op = token.EQL
+								x.Y = zeroLike(info, x.Y)
+							case c == "1" && x.Op == token.GEQ, c == "0" && x.Op == token.NEQ:
+								x.Op = token.GTR
+								x.Y = zeroLike(info, x.Y)
+							}
+						}
+					}
+				}
+				// b == false → !b, b == true → b, b != false → b, b != true → !b
 					if x.Op == token.EQL || x.Op == token.NEQ {
 						if v, ok := isBoolConst(x.Y); ok {
 							if _, both := isBoolConst(x.X); !both {
@@ -755,4 +771,15 @@ func (r *Result) writeEvidence(discharged, distinct, violations, nKnown int) {
 	if err := os.WriteFile(filepath.Join(EvidenceDir(), r.Property+".json"), b, 0o644); err != nil {
 		fmt.Printf("INFRA-ERROR writing evidence: %v\n", err)
 	}
+}
+
+// zeroLike returns a literal 0 with the type information of the constant it replaces.
+func zeroLike(info *types.Info, old ast.Expr) ast.Expr {
+	if tv, ok := info.Types[old]; ok && tv.Value != nil && tv.Value.ExactString() == "0" {
+		return old
+	}
+	lit := &ast.BasicLit{ValuePos: old.Pos(), Kind: token.INT, Value: "0"}
+	t := info.TypeOf(old)
+	info.Types[lit] = types.TypeAndValue{Type: t, Value: constant.MakeInt64(0)}
+	return lit
 }
